@@ -161,9 +161,10 @@ func (l *lexer) backup() {
 }
 
 func (l *lexer) peek() string {
-	val := l.next()
-	l.backup()
-	return val
+	if l.pos >= len(l.input) {
+		return delimEOF
+	}
+	return l.input[l.pos : l.pos+1]
 }
 
 // emit will create a token with a value starting from the last emission
